@@ -65,11 +65,15 @@ class FakeSnowflakeConnection:
             duck_conn.execute(info_schema.creation_sql(self.database))
             duck_conn.execute(macros.creation_sql(self.database))
 
-        # create schema if needed
+        # create schema if needed, which is only possible when its database exists
         if (
             create_schema
             and self.database
             and self.schema
+            and duck_conn.execute(
+                f"""select * from information_schema.schemata
+                where upper(catalog_name) = '{self.database}'"""
+            ).fetchone()
             and not duck_conn.execute(
                 f"""select * from information_schema.schemata
                 where upper(catalog_name) = '{self.database}' and upper(schema_name) = '{self.schema}'"""
